@@ -15,7 +15,7 @@ Inductive op :=
 
 Inductive case :=
 | TxnCase (d : dbcfg) (thr : Z) (update : bool) (ops : list op) (cts : N) (blocked : bool)
-          (commit_code : N)
+          (thr_c : Z) (commit_code : N)   (* thr: threshold during the calls, thr_c: at Commit *)
 | Limits (mts : Z) (count size : Z)
 | Banned (off : Z) (banned : list N) (key : bytes) (code : N)
 | Estimate (klen vlen : N) (cached thr : Z) (size newthr : Z).
@@ -63,9 +63,9 @@ Fixpoint run_ops (d : dbcfg) (thr : Z) (t : txn) (ops : list op) : txn * bool * 
 
 Definition run_case (c : case) : bool * list N :=
   match c with
-  | TxnCase d thr update ops cts blocked commit_code =>
+  | TxnCase d thr update ops cts blocked thr_c commit_code =>
       let '(t, ok, tags) := run_ops d thr (new_txn false update) ops in
-      let r := commit d thr blocked t cts in
+      let r := commit d thr_c blocked t cts in
       let '(code, tag) :=
         match r with
         | CNoop => (0, 200)
@@ -73,7 +73,7 @@ Definition run_case (c : case) : bool * list N :=
         | CErr e => (merr_code e, 210 + merr_code e)
         | CCrash => (30, 230)
         end in
-      (ok && (code =? commit_code), tag :: tags)
+      (ok && (code =? commit_code), tag :: (if (thr_c =? thr)%Z then 0 else 240) :: tags)
   | Limits mts count size =>
       let '(c, s) := batch_limits mts in
       ((c =? count)%Z && (s =? size)%Z,
